@@ -52,15 +52,116 @@ class Module:
         return os.path.relpath(self.path, os.path.dirname(os.path.dirname(self.path)))
 
 
+def _fp_function(fn) -> str:
+    """name-free fingerprint of a function: arity, string constants (einsum subscripts, messages; not the docstring), called attribute
+    names, number of returns - unchanged by renaming the function, its parameters or its locals"""
+    body = list(fn.body)
+    if body and isinstance(body[0], ast.Expr) and isinstance(body[0].value, ast.Constant) and isinstance(body[0].value.value, str):
+        body = body[1:]
+    strs, calls, rets = [], [], 0
+    for st in body:
+        for n in ast.walk(st):
+            if isinstance(n, ast.Constant) and isinstance(n.value, str):
+                strs.append(n.value)
+            elif isinstance(n, ast.Call) and isinstance(n.func, ast.Attribute):
+                calls.append(n.func.attr)
+            elif isinstance(n, ast.Return):
+                rets += 1
+    a = fn.args
+    return repr((len(a.posonlyargs + a.args), sorted(strs), sorted(calls), rets, len(body)))
+
+
+def fingerprint_module(tree) -> dict:
+    """{name: fingerprint} of the module-level functions and classes"""
+    out = {}
+    for node in tree.body:
+        if isinstance(node, (ast.FunctionDef, ast.AsyncFunctionDef)):
+            out[node.name] = "F" + _fp_function(node)
+        elif isinstance(node, ast.ClassDef):
+            out[node.name] = "C" + repr(sorted((sub.name, _fp_function(sub)) for sub in node.body if isinstance(sub, (ast.FunctionDef, ast.AsyncFunctionDef))))
+    return out
+
+
+class _Unrename(ast.NodeTransformer):
+    """gives renamed private helpers their pinned names back (definitions, references, imports, attribute accesses)"""
+
+    def __init__(self, mapping):
+        self.m = mapping
+
+    def visit_FunctionDef(self, n):
+        n.name = self.m.get(n.name, n.name)
+        return self.generic_visit(n)
+
+    visit_AsyncFunctionDef = visit_FunctionDef
+    visit_ClassDef = visit_FunctionDef
+
+    def visit_Name(self, n):
+        n.id = self.m.get(n.id, n.id)
+        return n
+
+    def visit_Attribute(self, n):
+        n.attr = self.m.get(n.attr, n.attr)
+        return self.generic_visit(n)
+
+    def visit_ImportFrom(self, n):
+        for a in n.names:
+            if a.name in self.m:
+                a.asname = a.asname or None
+                a.name = self.m[a.name]
+        return n
+
+
 class Model:
-    def __init__(self, repo: str | None = None):
+    def __init__(self, repo: str | None = None, unrename: bool = True):
         self.repo = repo or os.environ.get("TTSA_REPO", "/repo")
         self.pkgdir = os.path.join(self.repo, PKG)
         self.modules: dict[str, Module] = {}
         self.functions: dict[str, Func] = {}
         self.classes: dict[str, ast.ClassDef] = {}
         self.class_module: dict[str, Module] = {}
+        self.renamed: dict[str, str] = {}        # pinned name -> name in the analysed tree (helpers recognised by fingerprint)
+        self._unrename = self._plan_unrename() if unrename else {}
         self._load()
+
+    def _plan_unrename(self) -> dict:
+        """A module-level function or class of the pinned tree whose name is gone, while exactly one *new* name of the same module has its
+        name-free fingerprint, was renamed: the analysis gives it its pinned name back (the mapping is reported with the evidence).  Only
+        names that are unique in the whole package are mapped, so that references from other modules can be rewritten by name."""
+        import json
+        fpfile = os.path.join(os.path.dirname(os.path.abspath(__file__)), "anchor_fingerprints.json")
+        try:
+            expected = json.load(open(fpfile))
+        except (OSError, ValueError):
+            return {}
+        mapping = {}
+        seen_new = {}
+        for root, _, files in os.walk(self.pkgdir):
+            for fn in files:
+                if not fn.endswith(".py"):
+                    continue
+                path = os.path.join(root, fn)
+                rel = os.path.relpath(path, self.repo)[:-3].replace(os.sep, ".")
+                modname = rel[:-len(".__init__")] if rel.endswith(".__init__") else rel
+                exp = expected.get(modname)
+                if not exp:
+                    continue
+                try:
+                    import warnings
+                    with warnings.catch_warnings():
+                        warnings.simplefilter("ignore", SyntaxWarning)
+                        got = fingerprint_module(ast.parse(open(path, encoding="utf-8").read()))
+                except (SyntaxError, OSError):
+                    continue
+                missing = [n for n in exp if n not in got]
+                extra = [n for n in got if n not in exp]
+                for x in missing:
+                    cands = [y for y in extra if got[y] == exp[x]]
+                    if len(cands) == 1:
+                        mapping[cands[0]] = x
+                        seen_new[cands[0]] = seen_new.get(cands[0], 0) + 1
+        mapping = {y: x for y, x in mapping.items() if seen_new.get(y) == 1 and y != x}
+        self.renamed = {x: y for y, x in mapping.items()}
+        return mapping
 
     # ------------------------------------------------------------------ loading
     def _modpath(self, name: str):
@@ -92,7 +193,10 @@ class Model:
                 import warnings
                 with warnings.catch_warnings():
                     warnings.simplefilter("ignore", SyntaxWarning)
-                    tree = _canonicalise(ast.parse(src, filename=path))
+                    tree = ast.parse(src, filename=path)
+                    if self._unrename:
+                        tree = _Unrename(self._unrename).visit(tree)
+                    tree = _canonicalise(tree)
             except SyntaxError as e:
                 raise AnalysisError(f"unit {path} does not parse: {e}")
             m = Module(name, path, src, tree)
